@@ -289,7 +289,7 @@ theorem dedupFetch_branches (cfg : Cfg) (tbl : Nat → Option ORes) (c : Cache) 
   · refine Or.inl ⟨h1, ?_⟩
     have hc : (rp || decide (r.method ≠ "GET")) = true := by
       rcases h1 with h | h <;> simp [h]
-    unfold dedupFetch
+    unfold dedupFetch dedupFetchEnv
     simp only [hc, if_true]
     cases hfo : (fetchUpstream cfg tbl c now (upReq r range) rp).out with
     | notCacheable => exact Or.inl ⟨rfl, rfl⟩
@@ -303,7 +303,7 @@ theorem dedupFetch_branches (cfg : Cfg) (tbl : Nat → Option ORes) (c : Cache) 
     have hc : (rp || decide (r.method ≠ "GET")) = false := by simp [hrp, hm]
     subst hrp
     refine Or.inr ?_
-    unfold dedupFetch
+    unfold dedupFetch dedupFetchEnv
     simp only [hc, Bool.false_eq_true, if_false]
     cases hl : lookup c r.res r.query with
     | none =>
@@ -823,7 +823,7 @@ theorem dedupFetch_stale (cfg : Cfg) (tbl : Nat → Option ORes) (c : Cache) (no
     (hm : r.method = "GET") (he : lookup c r.res r.query = some e) (hs : e.expires < now) :
     dedupFetch cfg tbl c now r range false =
       afterFetch tbl r range .revalidated (fetchUpstream cfg tbl c now (condReq r range e) false) := by
-  unfold dedupFetch
+  unfold dedupFetch dedupFetchEnv
   simp only [hm, he, hs, ne_eq, not_true, decide_false, Bool.or_self, Bool.false_eq_true, if_false]
   rfl
 
@@ -832,7 +832,7 @@ theorem dedupFetch_noentry (cfg : Cfg) (tbl : Nat → Option ORes) (c : Cache) (
     (hm : r.method = "GET") (hl : lookup c r.res r.query = none) :
     dedupFetch cfg tbl c now r range false =
       afterFetch tbl r range .miss (fetchUpstream cfg tbl c now (upReq r range) false) := by
-  unfold dedupFetch
+  unfold dedupFetch dedupFetchEnv
   simp only [hm, hl, ne_eq, not_true, decide_false, Bool.or_self, Bool.false_eq_true, if_false]
   rfl
 
